@@ -145,3 +145,33 @@ def bit_form(t, width=16):
         return {k: k for k in range(width)}
     m = walk(t)
     return m, (atom[0] if atom else None)
+
+
+def divisor(t, depth=0):
+    """largest d known to divide the integer denoted by t (0 means: the value is 0)"""
+    from math import gcd
+    if t is None or depth > 12:
+        return 1
+    op = t[0]
+    if op == 'c':
+        return abs(t[1]) if isinstance(t[1], int) else 1
+    if op == 'jd':
+        return t[2]
+    if op == 'dvhint':
+        return t[1]
+    if op == 'Mul' and len(t) == 3:
+        a, b = divisor(t[1], depth + 1), divisor(t[2], depth + 1)
+        return a * b
+    if op in ('Add', 'Sub') and len(t) == 3:
+        return gcd(divisor(t[1], depth + 1), divisor(t[2], depth + 1))
+    if op == 'Shl' and len(t) == 3 and t[2][0] == 'c':
+        return divisor(t[1], depth + 1) << t[2][1]
+    if op == 'trunc':
+        return 1 if divisor(t[1], depth + 1) == 1 else _pow2_part(divisor(t[1], depth + 1))
+    return 1
+
+
+def _pow2_part(d):
+    if d == 0:
+        return 0
+    return d & -d
